@@ -56,8 +56,13 @@ def r1(ctx):
         copy = [v for nm, v in lets.items() if v[0] == srch]
         copy_ok = bool(copy) and pretty(strip(copy[0][1]["init"])) == "layers.clone()" and order[id(copy[0][1])] < order[id(lp)] and (ln is None or order[id(ln[1])] < order[id(lp)])
         rng_ok = it.get("k") == "struct" and it["path"] == "std::ops::Range" and [pretty(strip(b)) for a, b in it["fs"]] == ["1", "loops"]
-        ok = copy_ok and rng_ok
-        detail = "for _ in %s { layers.extend(%s) }" % (pretty(it), short(pretty(arg), 40))
+        # .. and the saved copy is never modified: every repetition starts as an exact clone of the original layers
+        from .. import e6 as _e6
+        untouched = srch not in _e6.Exec(c, fn)._mutated_locals(fn["body"])
+        ok = copy_ok and rng_ok and untouched
+        if not untouched:
+            detail_extra = " (the saved copy is modified before it is appended)"
+        detail = "for _ in %s { layers.extend(%s) }" % (pretty(it), short(pretty(arg), 40)) + ("" if untouched else " after modifying the saved copy")
     ctx.check("R10.1", "extend-with-original-clones", ok, "extension:" + short(detail, 90), c.loc(fn, ext[0]) if ext else c.loc(fn), "for _ in 1..loops { layers.extend(original.clone()) }",
               "the unrolled copies are produced by `%s`; every repetition must be a clone of the original layer list, loops-1 times" % detail)
     # coupled: for l in 0..length: the group {l + i*length | i in 0..loops}, built by an inner loop with push or by map/collect
